@@ -24,7 +24,8 @@ def lifecycle(draw):
   # end in a known state: restart, subscribe, publish, settle
   # a fixed tail every history goes through: an object that outlives a quiet stop publishes,
   # the fabric must stay stopped; then restart
-  ops += [["start"], ["start_object"], ["settle"], ["stop_quietly"], ["object_publish"], ["settle"],
+  ops += [["start"], ["clear"], ["subscribe", "VB"], ["publish", "VB"], ["settle"],     # clear() on a running fabric
+          ["start_object"], ["settle"], ["stop_quietly"], ["object_publish"], ["settle"],
           ["stop"], ["start"], ["settle"]]
   return {"ops": ops, "schedule": [list(x) for x in draw(schedule_st)]}
 
